@@ -389,3 +389,146 @@ func runNarrowBoundIn(w *World, r *Report, br *boundsRun, suffixes ...string) {
 	RunNarrowBound(w, r, fns, br)
 	RunControl(r, "narrowbound", "ctlWrapBound|", func(cw *World, rr *Report, cf []*ssa.Function) { RunNarrowBound(cw, rr, cf, newBoundsRun(cw)) })
 }
+
+// condMonotoneStores is the side condition of reviewed entries that rely on
+// "the offsets are non-decreasing" (slices delimited by consecutive elements
+// of an offset array).  In function fn, every integer stored into (or
+// appended to) a slice inside a loop is tied to a loop-carried "previous"
+// value: the stored value is V (or V plus/minus a constant) where V is the
+// value the loop hands to the next iteration as `prev`, and the prover shows
+// V >= prev at the store; with withUpper it also shows V <= len(x) for some
+// slice x of the function.  Removing or weakening the ordering test makes the
+// proof fail, and with it every reviewed entry bound to this condition.
+func condMonotoneStores(w *World, br *boundsRun, name string, withUpper bool) func() (bool, string) {
+	return func() (bool, string) {
+		fn := w.Func(name)
+		if fn == nil {
+			return false, name + " does not resolve"
+		}
+		p := br.prover(fn)
+		var lens []ssa.Value
+		for _, b := range fn.Blocks {
+			for _, in := range b.Instrs {
+				if c, ok := in.(*ssa.Call); ok {
+					if bi, ok := c.Call.Value.(*ssa.Builtin); ok && bi.Name() == "len" {
+						lens = append(lens, c.Call.Args[0])
+					}
+				}
+			}
+		}
+		isIntSlice := func(t types.Type) bool {
+			sl, ok := t.Underlying().(*types.Slice)
+			return ok && isIntType(sl.Elem())
+		}
+		sites := 0
+		for _, l := range naturalLoops(fn) {
+			for b := range l.body {
+				for _, in := range b.Instrs {
+					var stored ssa.Value
+					switch x := in.(type) {
+					case *ssa.Store:
+						if ia, ok := x.Addr.(*ssa.IndexAddr); ok && isIntSlice(ia.X.Type()) {
+							stored = x.Val
+						}
+					case *ssa.Call:
+						if bi, ok := x.Call.Value.(*ssa.Builtin); ok && bi.Name() == "append" && len(x.Call.Args) == 2 && isIntSlice(x.Call.Args[0].Type()) {
+							if sl, ok := x.Call.Args[1].(*ssa.Slice); ok {
+								// append(s, v) is append(s, tmp[:]...) with *tmp[0] = v
+								if al, ok := sl.X.(*ssa.Alloc); ok && al.Referrers() != nil {
+									for _, ref := range *al.Referrers() {
+										if ia, ok := ref.(*ssa.IndexAddr); ok && ia.Referrers() != nil {
+											for _, r2 := range *ia.Referrers() {
+												if st, ok := r2.(*ssa.Store); ok {
+													stored = st.Val
+												}
+											}
+										}
+									}
+								}
+							}
+						}
+					}
+					if stored == nil {
+						continue
+					}
+					// only the innermost loop of the store counts
+					inner := true
+					for _, l2 := range naturalLoops(fn) {
+						if l2 != l && l2.body[b] && len(l2.body) < len(l.body) {
+							inner = false
+						}
+					}
+					if !inner {
+						continue
+					}
+					sites++
+					ok := false
+					for _, hi := range l.head.Instrs {
+						ph, isPhi := hi.(*ssa.Phi)
+						if !isPhi {
+							break
+						}
+						if !isIntType(ph.Type()) {
+							continue
+						}
+						var v ssa.Value
+						same := true
+						for i, e := range ph.Edges {
+							if !l.body[l.head.Preds[i]] {
+								continue
+							}
+							if v == nil {
+								v = e
+							} else if v != e {
+								same = false
+							}
+						}
+						if v == nil || !same || v == ssa.Value(ph) {
+							continue
+						}
+						rel := stored == v
+						if bo, isBO := stored.(*ssa.BinOp); isBO && (bo.Op == token.SUB || bo.Op == token.ADD) && bo.X == v {
+							if _, isC := bo.Y.(*ssa.Const); isC {
+								rel = true
+							}
+						}
+						if cv, isCv := stored.(*ssa.Convert); isCv && cv.X == v {
+							rel = true
+						}
+						if !rel {
+							continue
+						}
+						d, okSub := p.linOf(v).sub(p.linOf(ph))
+						if !okSub || !p.proveAt(b, d) {
+							continue
+						}
+						if withUpper {
+							up := false
+							for _, x := range lens {
+								if u, okU := p.lenOf(x).sub(p.linOf(v)); okU && p.proveAt(b, u) {
+									up = true
+									break
+								}
+							}
+							if !up {
+								continue
+							}
+						}
+						ok = true
+					}
+					if !ok {
+						what := "not shown to be at least the value stored before it"
+						if withUpper {
+							what += " and at most the length of the data it points into"
+						}
+						return false, fmt.Sprintf("%s: the value stored into the offset list is %s", w.Pos(in.Pos()), what)
+					}
+				}
+			}
+		}
+		if sites == 0 {
+			return false, "no store into an integer slice inside a loop found in " + name
+		}
+		return true, ""
+	}
+}
